@@ -268,10 +268,12 @@ pub fn run_c18(tier: Tier) -> i32 {
     crate::explore::silence_panics();
     let evals = AtomicUsize::new(0);
     let check = |received: &str, accepted: &[&str]| {
+        begin(&Script::keep_going()); // marks "code under test is running" for the panic hook
         let got = match std::panic::catch_unwind(|| deserr::errors::helpers::did_you_mean(received, accepted)) {
             Ok(g) => g,
             Err(_) => "<panicked>".to_string(),
         };
+        let _ = end();
         let want = did_you_mean_spec(received, accepted);
         evals.fetch_add(1, Ordering::Relaxed);
         if got != want {
